@@ -11,7 +11,7 @@ for l in $(seq 0 $((LANES-1))); do
   [ -z "${Q[$l]}" ] && continue
   (
     C=/tmp/vcopy-$$-$l
-    rm -rf $C; cp -a /verif $C
+    rm -rf $C; mkdir -p $C; git -C /verif archive HEAD | tar -x -C $C; cp -a /verif/lean/.lake $C/lean/.lake   # committed state only (workers edit /verif live)
     for d in ${Q[$l]}; do
       sid=$(basename $d); pid=${sid%%-*}
       VERIF_RUN_DIR=$C /verif/tools/confirm_seed.py $d $sid $pid > /tmp/vcopy-logs/$sid.log 2>&1
